@@ -403,7 +403,7 @@ func replay(path string) {
 		k, d = w.drain()
 	}
 	if k != "" {
-		fmt.Printf("VIOLATION property=C19 replay=%s\n  %s: %s\n", path, k, d)
+		fmt.Printf("VIOLATION property=%s replay=%s\n  %s: %s\n", ev.As("C19"), path, k, d)
 		os.Exit(1)
 	}
 	fmt.Println("replay: property held")
